@@ -179,6 +179,11 @@ func (r *Run) runOp(w *World, op string, plan []simdisk.Fault, spec SchedSpec, f
 	}()
 	r.Sched.SetMode(sched.Off)
 	res.SchedV = r.Sched.Take()
+	if d.Crashed() {
+		// whatever the operation returned died with the process
+		res.Crashed = true
+		res.Err, res.HasRes, res.Repaired = nil, false, nil
+	}
 	d.BeginOp(nil)
 	res.Log = append([]simdisk.Access(nil), d.LogFrom(seq0)...)
 	res.After = d.Snapshot()
